@@ -737,7 +737,7 @@ Qed.
 Lemma step_ok : forall s o, Inv s -> Inv (mstep s o) /\ vabs (mstep s o) = vstep (vabs s) o.
 Proof.
   intros [H SL] o G. unfold Inv in G. cbn [hp slots] in G.
-  destruct o as [i|i t|i nm|i j|i j|i t|i nm|i k v|i j|i j k|i k nm|i j|i]; cbn [mstep hp slots vstep].
+  destruct o as [i|i t|i nm|i j|i j|i t|i nm|i k v|i j|i j k|i k nm|i j|i|i k j]; cbn [mstep hp slots vstep].
   - (* VNull *)
     destruct (drop_inv H SL i G) as [D P].
     destruct (commit H SL (drop_slot (mkV H SL) i) i (Some None) [] G (vals_app_nil _ _ P) D) as [I V].
@@ -906,6 +906,54 @@ Proof.
     destruct (drop_inv H SL i G) as [D P]. split.
     + unfold Inv. cbn [hp slots]. exact D.
     + apply (vabs_gset H _ SL i None [] (vals_app_nil _ _ P)). intros b Hb. exact (inv_slots_range H SL [] b G Hb).
+  - (* VSubAssign *)
+    destruct (i =? j)%nat eqn:Eij; [split; [exact G|reflexivity]|]. apply Nat.eqb_neq in Eij.
+    rewrite !sget_vabs. destruct (gget SL i) as [hi|] eqn:Ei; cbn [option_map]; [|split; [exact G|reflexivity]].
+    destruct (gget SL j) as [hj|] eqn:Ej; cbn [option_map]; [|destruct (hv H hi); split; try exact G; reflexivity].
+    destruct hi as [bi|]; cbn [lookup]; [|split; [exact G|reflexivity]].
+    destruct (slot_block H SL i bi G Ei) as (kb & Ek & Rk). rewrite Ek.
+    pose proof (proj2 G) as O.
+    rewrite (hv_block H bi kb O Ek).
+    destruct (pl kb) as [t0|l c nm0 at_ hs] eqn:Pk; cbn [val_of]; [split; [exact G|reflexivity]|].
+    rewrite map_length. destruct (k <? length hs) eqn:Lk; [|split; [exact G|reflexivity]].
+    apply Nat.ltb_lt in Lk.
+    destruct (open_elem_block H bi kb l c nm0 at_ hs Ek Pk) as (H1 & ip & Op). rewrite Op.
+    set (hk := nth k hs None).
+    unfold alloc. cbv beta iota.
+    set (S' := gset SL i None).
+    pose proof (slot_inv H SL [] i None G) as G1. rewrite Ei in G1. cbn [sref href app] in G1. fold S' in G1.
+    destruct (open_elem_ok H S' [] (Some bi) H1 l c nm0 at_ hs ip G1 Op) as (G2 & P1 & Va1 & Ip1).
+    set (Er := hrefs (upd k None hs)).
+    assert (G2' : GInv H1 S' (href hk ++ Er)).
+    { eapply GInv_perm; [|exact G2]. intros b. rewrite app_nil_r, cnt_app.
+      pose proof (hrefs_upd hs k None b Lk) as X. fold hk in X. unfold Er.
+      change (href None) with (@nil nat) in X. rewrite cnt_nil in X. unfold handle in *. lia. }
+    (* take the reference on the source: slot j is another slot, still there *)
+    assert (G3 : GInv (share H1 hj) S' (href hj ++ href hk ++ Er)).
+    { destruct hj as [bj|]; [|exact G2']. cbn [href app]. apply share_inv; [exact G2'|].
+      apply (ginv_slot_live H1 S' _ bj G2'). apply (gget_srefs S' j bj). unfold S'.
+      rewrite gget_gset_other by exact Eij. exact Ej. }
+    (* release the old item *)
+    set (H2 := release_top (share H1 hj) hk).
+    assert (G4 : GInv H2 S' (href hj ++ Er)).
+    { apply release_top_inv. eapply GInv_perm; [|exact G3]. intros b. rewrite !cnt_app. lia. }
+    assert (G5 : GInv (H2 ++ [mkBlock 1 (PElem l c nm0 at_ (upd k hj hs))]) S' [length H2]).
+    { apply alloc_inv. rewrite app_nil_r. eapply GInv_perm; [|exact G4]. intros b. cbn [children].
+      pose proof (hrefs_upd hs k hj b Lk) as X1. pose proof (hrefs_upd hs k None b Lk) as X2. unfold Er.
+      change (href None) with (@nil nat) in X2. rewrite cnt_nil in X2. fold hk in X1, X2.
+      rewrite cnt_app. unfold handle in *. lia. }
+    set (H3 := H2 ++ [mkBlock 1 (PElem l c nm0 at_ (upd k hj hs))]) in *.
+    assert (PH2 : map pl H2 = map pl H).
+    { unfold H2, release_top. rewrite pls_release, pls_share. exact P1. }
+    assert (V3 : vals H3 = vals H ++ [val_of (vals H) (PElem l c nm0 at_ (upd k hj hs))]).
+    { unfold H3. rewrite vals_snoc. cbn [pl]. rewrite (vals_pl H H2 PH2). reflexivity. }
+    destruct (commit H SL H3 i (Some (Some (length H2))) _ G V3 G5) as [I V].
+    assert (Pl : place i (Some (length H2)) ip SL = gset SL i (Some (Some (length H2)))).
+    { destruct ip as [b|]; [|reflexivity]. destruct (Ip1 b eq_refl) as [Eb Rb]. inversion Eb; subst b.
+      apply (place_eq H SL []); assumption. }
+    rewrite Pl. split; [exact I|]. etransitivity; [exact V|]. f_equal. cbn [option_map]. f_equal.
+    unfold H3. rewrite hv_new. cbn [pl val_of]. f_equal. rewrite (vals_pl H H2 PH2).
+    apply (map_upd_nth (hv H) (hval (vals H)) (fun _ => hv H hj)); [exact Lk|reflexivity|reflexivity].
 Qed.
 
 (* ---- every history ------------------------------------------------------------------------ *)
